@@ -377,6 +377,24 @@ func (t *Teamserver) ListenerServiceExc2Add(Name, ExEndpoint string, client *ser
 	return nil
 }
 
+// ListenerServiceExc2Remove
+// removes the external c2 listeners (and their endpoints) that the given service client started.
+func (t *Teamserver) ListenerServiceExc2Remove(client *service.ClientService) {
+	var Listeners []*Listener
+
+	for _, listener := range t.Listeners {
+		if External, ok := listener.Config.(*handlers.External); ok && External.Data != nil {
+			if External.Data["client"] == client {
+				t.EndpointRemove(External.Config.Endpoint)
+				continue
+			}
+		}
+		Listeners = append(Listeners, listener)
+	}
+
+	t.Listeners = Listeners
+}
+
 // ListenerStartNotify
 // Notifies the clients of a new listener that is available to use.
 func (t *Teamserver) ListenerStartNotify(Listener map[string]any) {
